@@ -5,7 +5,7 @@ import e2e, tablegen
 import c04gen as G
 
 PROP = "C04"
-HEADER = "From Coq Require Import List Bool Arith.\nImport ListNotations.\nFrom DV Require Import Lifetimes.Model Lifetimes.Check."
+HEADER = "From Coq Require Import List Bool Arith.\nImport ListNotations.\nFrom DV Require Import Lifetimes.Model Lifetimes.Check Lifetimes.Struct."
 KNOWN_MSG = ("should explicitly include this lifetime bound", "Found elided lifetime in return type")
 
 
@@ -234,7 +234,7 @@ def check(ctx, replay=None):
     stats["rustc_pairs_checked"], stats["rustc_pairs_static_bridged"] = rustc_crosscheck(ctx, [(D, ms) for D, ms in accepted_bridges][: (3 if ctx.quick() else 100)])
     # ---- what the managed backends attach
     import c04_backends
-    bstats = c04_backends.run(ctx, accepted_bridges[: (3 if ctx.quick() else 60)], violate)
+    bstats = c04_backends.run(ctx, accepted_bridges[: (3 if ctx.quick() else 60)], violate, goals)
     stats.update(bstats)
     import c04_jsgc
     stats.update(c04_jsgc.run(ctx, accepted_bridges[: (4 if ctx.quick() else 40)], violate))
